@@ -165,6 +165,8 @@ def check(ctx):
                 bad = 'the group-path stack is re-bound'
         elif role[0] in ('iter', 'test'):
             pass
+        elif role[0] == 'alias':
+            pass        # a local name for the stack: its uses are reported as uses of the stack (sa/inventory.py)
         else:
             bad = f'unrecognised use of the group-path stack ({role[0]})'
         if bad:
@@ -180,7 +182,8 @@ def check(ctx):
         good = False
         for cl in calls:
             r = cl.func.value
-            src = defs.get(r.id) if isinstance(r, ast.Name) else r
+            from ..norm import subst as _subst
+            src = _subst(r, defs)       # through locals and aliases (`paths = part._group_pathing; exit_path = paths.pop()`)
             if src is not None and ast.unparse(src) in (f'{pn}._group_pathing[-1]', f'{pn}._group_pathing.pop()') and [ast.unparse(a) for a in cl.args] == [pn]:
                 good = True
         if len(calls) != 1 or not good:
